@@ -31,8 +31,8 @@ type World struct {
 type Import struct {
 	Name   string // "" when the spec has no name
 	Path   string
-	Decl   int  // index of the import declaration in the file
-	Parens bool // the declaration is parenthesised
+	Decl   int    // index of the import declaration in the file
+	Parens bool   // the declaration is parenthesised
 	Doc    string // doc comment text of the spec (or of an unparenthesised single-spec decl)
 	Used   bool
 }
@@ -131,7 +131,7 @@ func Analyze(src []byte, w *World) (*Report, error) {
 	}
 	info := &types.Info{Uses: map[*ast.Ident]types.Object{}, Defs: map[*ast.Ident]types.Object{}, Implicits: map[ast.Node]types.Object{}}
 	conf := types.Config{
-		Importer:    &importer{w: w, pkgs: map[string]*types.Package{}},
+		Importer: &importer{w: w, pkgs: map[string]*types.Package{}},
 		// "C" is served by the fabricated importer like any other path (with FakeImportC go/types
 		// treats every C.x operand as invalid and stops visiting the expressions around it)
 		Error: func(err error) {
@@ -270,4 +270,3 @@ func Analyze(src []byte, w *World) (*Report, error) {
 	})
 	return rep, nil
 }
-
